@@ -315,6 +315,10 @@ def build() -> Check:
     from sa.protocol import done_callback_traces
     fn_dc, dtr = done_callback_traces(pm)
     bad = []
+    # (two facts about execute() decide how strict the done-callback has to be: when execute() looks at the policy again before it honours a recorded
+    # suspension, the ORDER in which the callback asks "suspend?" and "complete?" cannot change the outcome; when both writes of an outcome and the decision
+    # share one critical section, the order of the two writes cannot be observed by a decider)
+    facts = _round_h3_rules(ck, prog)
     n_dec = 0
     for t in dtr:
         d = dict(t.pc)
@@ -327,11 +331,12 @@ def build() -> Check:
             continue  # not branch outcomes: fatal error, orphan, or a future cancelled after the operation was already decided
         n_dec += 1
         if sc_dec is None:
-            bad.append((f"a branch ends ({oc}) and the completion policy is not consulted", t))
+            if not (susp and done_set and facts["second_look"]):
+                bad.append((f"a branch ends ({oc}) and the completion policy is not consulted", t))
         elif sc_dec is True:
             if not done_set:
                 bad.append((f"the policy is decided when a branch ends ({oc}) but the waiting call is not released", t))
-            if susp:
+            if susp and not facts["second_look"]:
                 bad.append((f"the policy is decided when a branch ends ({oc}) yet a suspension is raised instead of returning the batch result", t))
         else:
             if susp and d.get("should_execution_suspend()") is not True:
@@ -358,7 +363,7 @@ def build() -> Check:
         # the branch states - a counted outcome whose branch state still says RUNNING is reported STARTED although it decided the policy (r6_C09)
         bi = next((i for i, e in enumerate(t.events) if e.kind == "BRANCH"), None)
         ci_ = next((i for i, e in enumerate(t.events) if e.kind == "COUNTER"), None)
-        if bi is not None and ci_ is not None and ci_ < bi:
+        if bi is not None and ci_ is not None and ci_ < bi and not facts["one_section"]:
             badb.append((f"a branch ending with {oc} is counted ({cnt_calls[0]}) BEFORE its state is published ({st_calls[0]}): a sibling's done-callback running in "
                          "between sees the policy decided and releases the caller, which reports this branch STARTED - without its result / error - although its "
                          "outcome is what decided the policy (ALL_COMPLETED with a STARTED item; a fail-fast batch without a failure)", t))
@@ -526,7 +531,6 @@ def build() -> Check:
     ck.floor("mixed_replay_paths", n_mixed, 16)
     ck.ob("R1.replay-item-carries-own-outcome", fn_construct(f_replay), not badm, "; ".join(badm[:2]) or f"{n_mixed} paths over 16 status pairs")
     _publication_order(ck, prog)
-    _round_h3_rules(ck, prog)
     return ck
 
 
@@ -555,6 +559,7 @@ def _round_h3_rules(ck, prog):
             if len(loc_defs.get(nm, [])) == 1:
                 t_ = re.sub(rf"\b{nm}\b", "(" + ast.unparse(loc_defs[nm][0]) + ")", t_)
         return t_
+    all_guarded = bool(raises)
     for r in raises:
         cur, guarded = par.get(id(r)), False
         while cur is not None and not guarded:
@@ -562,6 +567,7 @@ def _round_h3_rules(ck, prog):
                 t = expanded(cur.test)
                 guarded = ("should_complete" in t or "is_complete" in t or "should_continue" in t) and "not " in t
             cur = par.get(id(cur))
+        all_guarded = all_guarded and guarded
         ck.ob("R5.decided-policy-overrules-a-recorded-suspension", fn_construct(ex), guarded,
               "execute() raises the suspension a done-callback recorded without looking at the completion policy again: a branch that finished while a sibling "
               "was recording its suspension (state published, not yet counted) has decided the operation, which nevertheless answers PENDING", where=f"line {r.lineno}")
@@ -615,11 +621,13 @@ def _round_h3_rules(ck, prog):
     # R2 "returns exactly when its completion policy is decided": in a re-invocation part of the decision is already on record - branches an earlier
     # invocation finished. They are counted only when a pool worker gets round to traversing them again (queue order, max_concurrency), so a decided call
     # keeps waiting behind a running branch, and a finished branch can be delivered as STARTED. Necessary: execute() consults the records before it submits.
+    facts = {"second_look": all_guarded, "one_section": bool(ex_ok)}
     looks = any(isinstance(n, ast.Attribute) and n.attr in ("get_checkpoint_result", "operations") for n in ast.walk(ex.node))
     ck.ob("R2.recorded-branch-outcomes-are-counted-before-submission", fn_construct(ex), looks,
           "execute() starts every invocation with fresh counters and never looks at the branch records: a branch recorded SUCCEEDED / FAILED by an earlier "
           "invocation counts only once a pool worker re-traverses it (in queue order, under max_concurrency). With max_concurrency=1, min_successful=2, branch 2 "
           "recorded and branch 0 succeeding now, the call is decided but waits for the worker that is inside branch 1 - for as long as that branch runs")
+    return facts
 
 
 def _publication_order(ck, prog):
